@@ -587,7 +587,7 @@ def run_job(job):
             plan = plans["blob"] if pb.o._sha is None else plans["blob_keeps_sha"]
             out["blob_model"] = "ChunkedResetsSha" if pb.o._sha is None else "ChunkedKeepsSha (defect model)"
         nodes = plan["nodes"]
-        for pi, (init, steps) in enumerate(plan["paths"]):
+        for pi, (init, steps) in enumerate(plan["paths"][:job.get("path_limit")]):
             st0 = nodes[str(init)]
             origin = str(st0["last"]["op"])
             ofmt = int(st0["last"]["f"])
